@@ -6,7 +6,15 @@ for f in sorted(glob.glob('/verif/seeded/*/meta.json')):
     m = json.load(open(f))
     notes = m.get('summary') or ''
     det = ', '.join(f"{k} ({v['class']})" if k == m['breaks_property'] else k for k, v in sorted(m['detected_by'].items()))
-    rows.append(f"| {m['id']} | {notes} | {'yes' if m['caught_by_own_property_check'] else '**no**'} | {det} | {', '.join(m['not_detected_by'])} |")
+    own = 'yes' if m['caught_by_own_property_check'] else '**no**'
+    if not m['caught_by_own_property_check']:
+        if m.get('caught_by_thorough'):
+            own += ' (thorough tier: yes)'
+        elif m.get('effective_property'):
+            own += f" (effective property {m['effective_property']})"
+        elif not m['detected_by']:
+            own += ' (outside the valid inputs)'
+    rows.append(f"| {m['id']} | {notes} | {own} | {det} | {', '.join(m['not_detected_by'])} |")
 table = "| change | what it does / what it needs to manifest | caught by its property's quick check | reported by (own check: violation class) | checks run that stayed quiet |\n|---|---|---|---|---|\n" + "\n".join(rows)
 p = '/verif/DESIGN.md'; s = open(p).read()
 b, e = '<!-- SEEDED-TABLE-BEGIN -->', '<!-- SEEDED-TABLE-END -->'
